@@ -31,12 +31,13 @@ named in the entry (all are caught now, and the unchanged tree is still silent).
 |---|---|---|---|---|
 %s
 
-Patterns worth noting: (1) five of the eight misses were *scope* gaps, not oracle gaps — the right assertion existed
-but the property's check did not run the harness family that carries it (C05 ← rejection harnesses, C11 ← full-map
-entry harnesses, C16@dbg, C01 ← rejection harnesses) or the right build configuration (C06 with `std` on);
-(2) the other misses were inputs the harnesses held fixed — an exact `size_hint`, element types that all had drop
-glue, fold compared by value, iterators consumed only through `next`, only three format specs. Each is now a
-symbolic or additional dimension.
+Patterns worth noting: (1) about half of the misses were *scope* gaps, not oracle gaps — the right assertion existed
+but the property's check did not run the harness family that carries it (C05 ← rejection / unchecked / entry harnesses,
+C11 ← full-map entry harnesses, C01 ← rejection harnesses, C10 ← ledger ids, C16@dbg and the drain variant in the quick
+tier) or the right build configuration (C06 with `std` on, the release profile in the build gate); (2) the other misses
+were dimensions the harnesses held fixed — an exact `size_hint`, element types that all had drop glue or all ignored
+formatter flags, fold compared by value, iterators consumed only through `next`, only three format specs, no fault
+injected into `From<[_;N]>`. Each is now a symbolic or an additional dimension.  A check never had to be loosened.
 ''' % (missed, '\n'.join(rows))
 p = os.path.join(V, 'DESIGN.md')
 s = open(p).read()
